@@ -752,8 +752,8 @@ def t_angle_reader(eng):
     fields = MS.field_variants(eng, kinds)
     x = eng.mk_fields(fields)
     f = eng.get_fnode('main')
-    idx = [k for k, st in enumerate(f.body) if isinstance(st, ast.Assign) and ast.unparse(st.targets[0]) == 'p'
-           and ('args.%s.split' % opt) in ast.unparse(st.value)]
+    idx = [k for k, st in enumerate(f.body) if isinstance(st, ast.Assign)
+           and ('args.%s.split' % opt) in ast.unparse(st.value).replace(' ', '')]
     if not idx:
         from pyvc.source import Unresolved
         raise Unresolved('p = args.%s.split in main' % opt)
